@@ -316,10 +316,12 @@ impl<'s, M: Matcher, S: Sink> MultiLine<'s, M, S> {
     }
 
     fn find(&mut self) -> Result<Option<Range>, S::Error> {
-        match self.core.matcher().find(&self.slice[self.core.pos()..]) {
+        // Search from the current position but keep the whole slice as the
+        // haystack, so that look-around sees what precedes that position.
+        match self.core.matcher().find_at(self.slice, self.core.pos()) {
             Err(err) => Err(S::Error::error_message(err)),
             Ok(None) => Ok(None),
-            Ok(Some(m)) => Ok(Some(m.offset(self.core.pos()))),
+            Ok(Some(m)) => Ok(Some(m)),
         }
     }
 
